@@ -3,7 +3,8 @@
 region never changes what the parser model does, only the payload texts it stores.  DERIVED from tools/gen_case.py (C09, parser half):
 `CE`/`CEL` ↦ `QE`/`QEL` (tools/../ParseSubst1.lean), `up`-trees ↦ erased trees (`er`, ParseSubst0.lean); comparisons with string constants
 need `plainB k` (one generated ground fact per constant of the model, ParseSubstKw.lean); all `String ==` are folded into `strEq` first.
-What follows is the description of gen_case.py.
+What follows is the description of gen_case.py (read `QE` for `CE`, erasure for `upAll`).
+The only function whose generated proof does not terminate is `pAnalyze` (four chained `search_and_move`s): its tail is named (`analyzeTail`) and related by hand.
 
 Relational family: for every function `f` of MsqModel/Parse/{Prim,Expr,Stmt,Entry}.lean whose result is a run,
 
@@ -297,7 +298,7 @@ for i, m in enumerate(bdefs):
     fns[m.group(1)] = mk_fn(m.group(1), [(None, t) for t in parts[:-1]], parts[-1], body, True); order.append(m.group(1))
 
 out = ["import MsqProofs.Lemmas.ParseSubstHelpers", HEADER % "the induction hypothesis for the mutual block of MsqModel/Parse/Expr.lean"] + OPTS
-out.append("/-- every function of the mutual block, with fuel `n`, on case-equivalent arguments: the same outcome, trees equal up to the case of stored texts -/")
+out.append("/-- every function of the mutual block, with fuel `n`, on related arguments (tokens / cursors that differ only inside quoted regions, trees equal after erasure): the same outcome, trees equal after the erasure of payload texts -/")
 out.append("structure SubF (d : Gen.D) (n : Nat) : Prop where")
 for n in order: out.append("  %s : %s" % (n, statement(fns[n], "n")))
 out.append("")
@@ -330,7 +331,7 @@ for k, names in enumerate(parts):
 
 out = ["import MsqProofs.Lemmas.ParseSubstE%d" % (k + 1) for k in range(NPARTS)] + ["import MsqProofs.Lemmas.ParseSubst7"]
 out += [HEADER % "the mutual block, induction on the fuel; plain forms"] + OPTS + ["variable (d : Gen.D)", ""]
-out.append("/-- **Case invariance of the expression / SELECT parser** -/")
+out.append("/-- **Payload invariance of the expression / SELECT parser**: all 80 functions of the mutual block -/")
 out.append("theorem subF_all : ∀ n, SubF d n := by")
 out.append("  intro n")
 out.append("  induction n with")
@@ -394,7 +395,7 @@ def each_closed_lemmas(body, done):
 
 
 out = ["import MsqProofs.Lemmas.ParseSubst", "import MsqProofs.Lemmas.ParseSubst6",
-       HEADER % "the statement level (MsqModel/Parse/Stmt.lean) and `parse_statements` on two case-equivalent token lists"] + OPTS
+       HEADER % "the statement level (MsqModel/Parse/Stmt.lean) and `parse_statements` on two token lists that differ only inside quoted regions"] + OPTS
 for n in order:
     xs_, ys_, _, a1, a2 = quant(fns[n])
     out.append("grind_pattern %s_qe => %s, %s" % (n, " ".join([n, "d", "f"] + a1), " ".join([n, "d", "f"] + a2)))
